@@ -157,6 +157,28 @@ def seed_specs(ctx, rng):
     return specs
 
 
+def rule_order_specs(ctx, rng):
+    out = []
+    for _ in range(60 if ctx.quick else 1000):
+        w = random_world(rng, n_modules=rng.randint(6, 16), n_imports=rng.randint(5, 40))
+        ep = RuleEpisode(w)
+        rules = rc.sampled_rules(rng, w.modules, 25, max_batch=2, strict_bias=0.5)
+        # the same subject spelled as 'named' and as 'sub modules of', in 'anything' rules and in explicit ones
+        for m in rng.sample(w.modules, min(4, len(w.modules))):
+            for d in ("import", "imported"):
+                for kind in ("named", "sub"):
+                    f = {"kind": kind, "name": list(m), "matches": []}
+                    rules.append(mk_rule("should_not", d, False, [f], [], any_=True))
+                    rules.append(mk_rule("should_not", d, True, [f], [f]))
+        rng.shuffle(rules)
+        for r in rules:
+            ep.eval(r)
+        a = ep.spec
+        b = dict(a, items=list(reversed(a["items"])))
+        out.append((a, b))
+    return out
+
+
 def order_specs(ctx, rng):
     out = []
     for _ in range(60 if ctx.quick else 1000):
@@ -310,6 +332,21 @@ def run(ctx):
             fails.append({"prop": "C15", "clause": "scan-result-depends-on-earlier-scans", "detail": {"scans": bad},
                           "event": {"scan": bad[0], "first_order": ra[bad[0]], "other_order": rb.get(bad[0])},
                           "spec": {"driver": "scan-orders", "a": a_spec, "b": b_spec}, "episode_events": None})
+    # (O2) the same module rules on one architecture in two evaluation orders (fresh rule objects): state that leaks
+    # between rule objects or through the process shows up as a rule whose outcome depends on what ran before it
+    rpairs = rule_order_specs(ctx, rng)
+    ra_eps = runner.run_specs([a for a, _ in rpairs])
+    rb_eps = runner.run_specs([b for _, b in rpairs])
+    rule_order_diffs = 0
+    for (a_spec, b_spec), ea, eb in zip(rpairs, ra_eps, rb_eps):
+        oa = {e["rid"]: (e["out"], e["real"], e["miss"]) for e in ea if e["k"] == "eval"}
+        ob = {e["rid"]: (e["out"], e["real"], e["miss"]) for e in eb if e["k"] == "eval"}
+        bad = sorted(k for k in oa if oa[k] != ob.get(k))
+        if bad:
+            rule_order_diffs += 1
+            fails.append({"prop": "C15", "clause": "rule-outcome-depends-on-evaluation-order", "detail": {"rules": bad[:5]},
+                          "event": {"rule": bad[0], "first_order": oa[bad[0]], "other_order": ob.get(bad[0])},
+                          "spec": {"driver": "rule-orders", "a": a_spec, "b": b_spec}, "episode_events": None})
     # (L) graph construction must not depend on the ORDER of the module list and the import list (which is what the
     # directory enumeration order turns into) - also when a package imports its own direct sub module, which real
     # scans produce for 'a.py' next to 'a/' (outside the scan generators' input language, so it is covered here)
@@ -329,7 +366,7 @@ def run(ctx):
            "traces_validated_against_impl": n_traces, "trace_events": events,
            "simulated_histories": len(hists), "history_length": 40, "applies_compared_with_isolated_evaluation": applies,
            "same_law_instances": laws, "hash_seeds": SEEDS, "episodes_per_seed": len(hspecs),
-           "seed_differences": seed_diffs, "listing_order_cases": listing_cases, "scan_order_pairs": len(ospecs), "scan_order_differences": order_diffs, "evaluations": applies + laws + len(hspecs) * len(SEEDS),
+           "seed_differences": seed_diffs, "listing_order_cases": listing_cases, "rule_order_pairs": len(rpairs), "rule_order_differences": rule_order_diffs, "scan_order_pairs": len(ospecs), "scan_order_differences": order_diffs, "evaluations": applies + laws + len(hspecs) * len(SEEDS),
            "distinct_applies_on_nonempty_architectures": len(distinct_applies),
            "distinct_nontrivial": len(distinct_applies) + laws,
            "rule": "one case = one Apply inside a 40-step history (compared with the isolated evaluation), one "
@@ -353,6 +390,14 @@ def replay(ctx, rp):
                 tr = trace.validate([out[fam]], f"{module}.tla", f"{module}.cfg", procs=1)
                 fails += attach(tr, [spec], [out[fam]]); n += tr.events
         return CheckResult(fails=fails, coverage={"replayed_events": n})
+    if spec["driver"] == "rule-orders":
+        ea, eb = runner.run_specs([spec["a"]], 1)[0], runner.run_specs([spec["b"]], 1)[0]
+        oa = {e["rid"]: (e["out"], e["real"], e["miss"]) for e in ea if e["k"] == "eval"}
+        ob = {e["rid"]: (e["out"], e["real"], e["miss"]) for e in eb if e["k"] == "eval"}
+        bad = sorted(k for k in oa if oa[k] != ob.get(k))
+        fails = [{"prop": "C15", "clause": "rule-outcome-depends-on-evaluation-order", "detail": {"rules": bad[:5]},
+                  "event": None, "spec": spec, "episode_events": None}] if bad else []
+        return CheckResult(fails=fails, coverage={"replayed_rules": len(oa)})
     if spec["driver"] == "listing":
         diffs, _ = listing_order_cases(ctx, random.Random(0), only=spec["world"])
         fails = [{"prop": "C15", "clause": "architecture-depends-on-the-order-of-modules-or-imports", "detail": d["diff"],
